@@ -47,6 +47,9 @@ func c15Configs() []*cfg.Config {
 		// the message is text, not a format: percent signs (written as Go escapes, a raw one would end the token) come out as they are
 		{Meta: meta(), Params: []cfg.KV{{K: "p0", V: S(`%todo("50\x25 done, 100\u0025d left")%`)}, {K: "p1", V: S(`%p0% %todo("\045s \x25v \x25!")%`)}},
 			Services: []cfg.Service{{Name: "s0", Constructor: cfg.P("pa.New"), Args: []cfg.Val{S("%p0%")}}, {Name: "s1", Constructor: cfg.P("pa.New"), Args: []cfg.Val{S("@s0"), S("%p1%")}}}},
+		// the message is a constant of the configuration's own package whose type is a named string type (round 13, S249)
+		{Meta: meta(), Params: []cfg.KV{{K: "p0", V: S("%todo(TodoReason)%")}, {K: "p1", V: S("%p0%!")}},
+			Services: []cfg.Service{{Name: "s0", Constructor: cfg.P("pa.New"), Args: []cfg.Val{S("%p0%")}}, {Name: "s1", Constructor: cfg.P("pa.New"), Args: []cfg.Val{S("@s0"), S("%p1%")}}}},
 		{Meta: meta(), Params: []cfg.KV{{K: "p0", V: S("%todo()%")}, {K: "p1", V: cfg.Int(1)}},
 			Services: []cfg.Service{{Name: "s0", Constructor: cfg.P("pa.New"), Args: []cfg.Val{S("%p0%")}, Scope: cfg.P("contextual")}, {Name: "s1", Constructor: cfg.P("pa.New"), Args: []cfg.Val{S("@s0"), S("%p1%")},
 				Fields: []cfg.KV{{K: "F1", V: S("%p0%")}}}}},
